@@ -235,5 +235,34 @@ func c12CollectFacts(repo string, sb *strings.Builder) error {
 		}
 	}
 	fmt.Fprintf(sb, "def familySortLess : String := %q\n", lessExpr)
+
+	// ---------------- query/search.go exec, query/task_manager.go Receive
+	fsetS, sg, err := ParseFile(repo, "query/search.go")
+	if err != nil {
+		return err
+	}
+	ex := FindFunc(sg, "", "exec")
+	if ex == nil || ex.Body == nil {
+		return fmt.Errorf("query.exec not found")
+	}
+	fmt.Fprintf(sb, "/-- query.exec, statement by statement (function literals as …) -/\ndef execSteps : List String := %s\n", LeanStrList(c12NestedShort(fsetS, ex.Body.List)))
+	var deferred []string
+	for _, st := range ex.Body.List {
+		if d, ok := st.(*ast.DeferStmt); ok {
+			if fl, ok := d.Call.Fun.(*ast.FuncLit); ok {
+				deferred = append(deferred, c12NestedShort(fsetS, fl.Body.List)...)
+			}
+		}
+	}
+	fmt.Fprintf(sb, "/-- the body of exec's deferred function -/\ndef execDeferred : List String := %s\n", LeanStrList(deferred))
+	fsetT, tmf, err := ParseFile(repo, "query/task_manager.go")
+	if err != nil {
+		return err
+	}
+	rcv := FindFunc(tmf, "taskManager", "Receive")
+	if rcv == nil || rcv.Body == nil {
+		return fmt.Errorf("taskManager.Receive not found")
+	}
+	fmt.Fprintf(sb, "def receiveSteps : List String := %s\n", LeanStrList(c12NestedShort(fsetT, rcv.Body.List)))
 	return nil
 }
